@@ -1,7 +1,9 @@
 // Correspondence harness for the samply-symbols crate (C13, later C10 C05 C06).
 use std::io::{BufRead, Write};
 
+mod bp;
 mod cc;
+mod memhelper;
 
 fn main() {
     std::panic::set_hook(Box::new(|_| {}));
@@ -14,6 +16,7 @@ fn main() {
         let toks: Vec<&str> = line.split_whitespace().collect();
         let res = match mode.as_str() {
             "cc" => cc::run(&toks),
+            "bp" => bp::run(&toks),
             _ => panic!("unknown mode"),
         };
         writeln!(out, "{}", res).unwrap();
